@@ -30,6 +30,7 @@ import (
 
 type tailored struct {
 	subnet netip.Prefix // what the authority was sent (invalid: no ECS)
+	scope  int          // the SCOPE PREFIX-LENGTH it declared
 }
 
 type frontServer struct {
@@ -37,6 +38,7 @@ type frontServer struct {
 	pc    net.PacketConn
 	ln    net.Listener
 	leaf  string
+	delta int // declared SCOPE = SOURCE + delta (clamped to the address length; may exceed SOURCE)
 
 	mu        sync.Mutex
 	exchanges []tailored
@@ -84,6 +86,7 @@ func (f *frontServer) serve(w dns.ResponseWriter, req *dns.Msg) {
 				a, _ = netip.AddrFromSlice(sub.Address.To4())
 			}
 			t.subnet = netip.PrefixFrom(a, int(sub.SourceNetmask))
+			t.scope = min(max(int(sub.SourceNetmask)+f.delta, 0), a.BitLen())
 		}
 		f.mu.Lock()
 		f.exchanges = append(f.exchanges, t)
@@ -109,7 +112,7 @@ func (f *frontServer) serve(w dns.ResponseWriter, req *dns.Msg) {
 				o = resp.IsEdns0()
 			}
 			o.Option = append(o.Option, &dns.EDNS0_SUBNET{Code: dns.EDNS0SUBNET, Family: sub.Family,
-				SourceNetmask: sub.SourceNetmask, SourceScope: sub.SourceNetmask, Address: sub.Address})
+				SourceNetmask: sub.SourceNetmask, SourceScope: uint8(t.scope), Address: sub.Address})
 		}
 	}
 	_ = w.WriteMsg(resp)
@@ -141,6 +144,11 @@ func execL3(f []string) vlib.Res {
 		z.Add(leaf+" 300 IN A 192.0.2.1", "warm.geo.test. 300 IN A 192.0.2.9")
 		front := newFront(z.Servers[0], leaf)
 		defer front.close()
+		for _, t := range f[5:] {
+			if strings.HasPrefix(t, "sc=") { // the authority declares SCOPE = SOURCE + <delta>
+				front.delta = vlib.Atoi(t[3:])
+			}
+		}
 		w.AddrMap[net.JoinHostPort(z.Servers[0].IP.String(), "53")] = front.pc.LocalAddr().String()
 		p := l3.NewPipe(w, l3.PipeOpts{Tweak: func(cfg *config.Config) {
 			cfg.ECS = config.ECSConfig{Enabled: true, ForwardV4Max: 32, ForwardV6Max: 128, MinScopeV4: 32, MinScopeV6: 128}
@@ -191,8 +199,12 @@ func execL3(f []string) vlib.Res {
 				continue // no answer / not a tailored one: availability is not this property
 			}
 			s := ex[i-1].subnet
-			inside := !s.IsValid() || (c.client.IsValid() && s.Addr().Is4() == c.client.Addr().Is4() &&
-				s.Bits() <= c.client.Bits() && s.Masked().Contains(c.client.Addr()))
+			// the audience of that answer: the sent subnet at min(SCOPE, SOURCE) bits; SCOPE 0 = everyone
+			if s.IsValid() {
+				s = netip.PrefixFrom(s.Addr(), min(ex[i-1].scope, s.Bits())).Masked()
+			}
+			inside := !s.IsValid() || s.Bits() == 0 || (c.client.IsValid() && s.Addr().Is4() == c.client.Addr().Is4() &&
+				s.Bits() <= c.client.Bits() && s.Contains(c.client.Addr()))
 			if !inside && or == "ok" {
 				or = fmt.Sprintf("FAIL sig=l3/sf/%s-client-told-an-answer-tailored-for-another-subnet tailored=%s client=%s", c.who, s, c.client)
 			}
